@@ -197,8 +197,9 @@ def check_session(ck, s, r, m, tag):
                read_limit=s['read_limit'], oracle=s['oracle'][:200], engine=tag, correspondence='live nano_vmd vs nvref_c18 client_thread')
     recv = r['recv']
     if r.get('timeout'):
-        ck.fail(key, 'session %s did not end within the timeout (daemon kept the connection open)' % s['name'],
-                dict(rep, observed='timeout', received_hex=recv.hex()[:400]))
+        ck.fail(key, 'session %s was not ended by the daemon within the client timeout (no reply / connection kept open); the model ends it with %s' % (
+                    s['name'], ('reply ' + m['sent'][:40].hex()) if m['sent'] else 'a closed connection'),
+                dict(rep, hung=True, observed='timeout', received_hex=recv.hex()[:400], expected_model=m['sent'].hex()[:400]))
         return 'timeout'
     if not m['alive']:
         return 'model-dead'
@@ -237,8 +238,10 @@ def check_session(ck, s, r, m, tag):
     return 'ok'
 
 
-def run_live(ck, b, ref, progs, tag, env_extra=None):
-    """One daemon, the whole catalogue interleaved with well-formed clients.  Returns distribution dict."""
+def run_live(ck, b, ref, progs, tag, bud, env_extra=None):
+    """One daemon, the whole catalogue interleaved with well-formed clients.  Returns distribution dict.
+    Bounded: every session/client is limited to bud.timeout(); after bud.k hung sessions or communication errors no further session is
+    started on this daemon (what ran is still compared and reported)."""
     rng = ck.rng
     S = catalogue(ck, progs)
     order = list(range(len(S)))
@@ -250,33 +253,41 @@ def run_live(ck, b, ref, progs, tag, env_extra=None):
     results = [None] * len(S)
     wf_results = []
     lock = threading.Lock()
+    bud.new_phase()
+    aborted = False
     try:
         pid0 = d.pid
         nthreads = 8
         it = iter(order)
 
         def bad_worker():
-            while True:
+            while not bud.exhausted():
                 with lock:
                     i = next(it, None)
                 if i is None:
                     return
                 s = S[i]
                 try:
-                    results[i] = V.raw_session(d.sock, s['data'], mode=s['mode'], read_limit=s['read_limit'], timeout=60,
+                    results[i] = V.raw_session(d.sock, s['data'], mode=s['mode'], read_limit=s['read_limit'], timeout=bud.timeout(),
                                                chunks=s['chunks'], pause=s['pause'])
+                    if results[i].get('timeout'):
+                        bud.anomaly('hung: session %s' % s['name'], hung=True)
                 except OSError as e:
                     results[i] = dict(recv=b'', error=str(e))
+                    bud.anomaly('connect/send error: session %s: %s' % (s['name'], e))
 
         stop = threading.Event()
 
         def good_worker(seed):
             import random
             r = random.Random(seed)
-            while not stop.is_set():
+            while not stop.is_set() and not bud.exhausted():
                 p = r.choice(good)
                 t0 = time.time()
-                obs = V.via_daemon(b, d, p['nvm'], timeout=120)
+                obs = V.via_daemon(b, d, p['nvm'], timeout=bud.timeout())
+                an = V.client_anomaly(obs)
+                if an:
+                    bud.anomaly('%s: well-formed client %s' % (an, p['name']), hung=(an == 'hung'))
                 with lock:
                     wf_results.append((p, obs, time.time() - t0))
                 time.sleep(r.random() * 0.01)
@@ -291,16 +302,26 @@ def run_live(ck, b, ref, progs, tag, env_extra=None):
         stop.set()
         for t in gws:
             t.join()
+        aborted = bud.exhausted()
         # one more well-formed client per program after all bad sessions ("clients that connect afterwards")
-        after = [(p, V.via_daemon(b, d, p['nvm'], timeout=120)) for p in good]
+        after = []
+        for p in good:
+            if bud.exhausted():
+                break
+            o = V.via_daemon(b, d, p['nvm'], timeout=bud.timeout())
+            an = V.client_anomaly(o)
+            if an:
+                bud.anomaly('%s: well-formed client %s after the catalogue' % (an, p['name']), hung=(an == 'hung'))
+            after.append((p, o))
         # survival
+        fast = aborted or bool(bud.hangs)
         alive = d.alive() and d.pid == pid0
-        pong = d.ping() if alive else False
+        pong = d.ping(timeout=3.0 if fast else 5.0) if alive else False
         idle = None
         if alive:
             t0 = time.time()
-            while time.time() - t0 < 10:
-                idle = d.status()
+            while time.time() - t0 < (3 if fast else 10):
+                idle = d.status(timeout=2.0 if fast else 5.0)
                 if idle == 1:
                     break
                 time.sleep(0.05)
@@ -310,9 +331,12 @@ def run_live(ck, b, ref, progs, tag, env_extra=None):
     finally:
         d.stop()
     base = dict(case='live', engine=tag)
+    if aborted:
+        ck.note('%s: %d hung sessions / communication errors: no further session started on this daemon (%d of %d catalogue sessions ran)' % (
+            tag, bud.phase, sum(1 for r in results if r is not None), len(S)))
     if not alive or not pong:
         # which session was it?  replay candidates one by one on fresh daemons (the search for the failing input)
-        culprit = find_culprit(ck, b, S, env_extra)
+        culprit = find_culprit(ck, b, [s_ for s_, r_ in zip(S, results) if r_ is not None] if aborted else S, env_extra)
         ck.fail('c18:daemon-died:' + (culprit['name'] if culprit else 'unknown'),
                 'daemon %s after the session catalogue (exit status %s)' % ('died' if not alive else 'stopped answering PING', rc),
                 dict(base, observed='alive=%s pong=%s rc=%s' % (alive, pong, rc), stderr=err_text[-1500:],
@@ -352,14 +376,186 @@ def run_live(ck, b, ref, progs, tag, env_extra=None):
     for p, obs, dt in wf_results + [(p, o, 0) for p, o in after]:
         ck.count(('wf', tag, p['name'], len(wf_results)), nontrivial=False)
         if obs != p['obs']:
-            ck.fail('c18:wellformed:' + p['name'], 'well-formed client of %s got a result different from standalone while bad sessions ran' % p['name'],
-                    dict(base, program=p['src'], expected=str(p['obs'])[:800], observed=str(obs)[:800]))
+            an = V.client_anomaly(obs)
+            ck.fail('c18:wellformed:' + p['name'], 'well-formed client of %s %s while bad sessions ran (standalone: exit %s, %d stdout bytes)' % (
+                        p['name'], 'was never served (killed after the client timeout)' if an == 'hung' else 'got a result different from standalone', p['obs'][0], len(p['obs'][1])),
+                    dict(base, program=p['src'], hung=(an == 'hung'), phase='session catalogue on 8 threads + 4 threads of well-formed clients',
+                         expected=str(p['obs'])[:800], observed=str(obs)[:800]))
     i = next((i for i, s in enumerate(S) if s['beh'] == 'payload-truncated'), 0)
     ck.sample(dict(session=S[i]['name'], sent=S[i]['data'].hex()[:64] + '...', impl=(results[i] or {}).get('recv', b'').hex(), model=models[i]['sent'].hex()))
     i = next((i for i, s in enumerate(S) if s['beh'] == 'wrong-version'), 0)
     ck.sample(dict(session=S[i]['name'], sent=S[i]['data'].hex()[:64], impl=(results[i] or {}).get('recv', b'').hex() or '(closed, no bytes)', model=models[i]['sent'].hex() or '(closed, no bytes)'))
-    return dict(sessions=len(S), behaviours={k: dict(run=v[0], agree=v[1]) for k, v in sorted(dist.items())},
+    return dict(sessions=len(S), sessions_run=sum(1 for r in results if r is not None), aborted=aborted,
+                behaviours={k: dict(run=v[0], agree=v[1]) for k, v in sorted(dist.items())},
                 wellformed_concurrent=len(wf_results), wellformed_after=len(after), idle_status=idle, daemon_alive=alive, pong=pong)
+
+
+def wait_status_reply(d, want, t=3.0):
+    """Poll STATUS until the reply bytes equal `want` twice in a row, 30 ms apart (a finished session decrements after it has closed
+    its socket, and a just-accepted one increments only when its thread runs)."""
+    t0 = time.time(); last = None; hits = 0
+    while time.time() - t0 < t:
+        try:
+            last = V.raw_session(d.sock, V.frame(V.T_STATUS), timeout=2.0)['recv']
+        except OSError:
+            last = None
+        hits = hits + 1 if last == want else 0
+        if hits >= 2:
+            return last
+        time.sleep(0.03 if hits else 0.02)
+    return last
+
+
+def counter_tie(ck, b, ref, progs, bud, tag='nano_vmd(plain)'):
+    """The session-count bookkeeping tied to the model: one session at a time on a fresh daemon; after EVERY malformed / abandoned /
+    well-formed session a STATUS request must be answered with exactly the bytes the extracted client_thread produces when started
+    from the count the model has reached by serving the same sessions (C18_session_ends: the count is restored; C18_daemon_survives:
+    active = 0 afterwards; C17_active_zero_when_done)."""
+    S = [s for s in catalogue(ck, progs)
+         if not (s['prog'] is not None and s['prog']['kind'] == 'big') and len(s['data']) < 200000 and not s['chunks']]
+    lim = 140 if ck.thorough else 70
+    if len(S) > lim:
+        # keep every behaviour class, thin out the large ones
+        by = {}
+        for s_ in S:
+            by.setdefault(s_['beh'], []).append(s_)
+        S = []
+        while len(S) < lim and any(by.values()):
+            for k in sorted(by):
+                if by[k] and len(S) < lim:
+                    S.append(by[k].pop(0))
+    # model: the count after each session, then the STATUS reply from that count
+    m1 = vlib.run_lines(V.nvref_cmd(ref), ['sess r r 0 %s %s %s' % ('0' if s_['mode'] == 'abandon' else '-', hx(s_['data']), s_['oracle']) for s_ in S], timeout=600)
+    counts, acc = [], 0
+    for o in m1:
+        f = o.split()
+        acc += int(f[5].replace('-', '-0x') if f[5].startswith('-') else '0x' + f[5], 16)      # model's count after a session started from 0
+        counts.append(acc)
+    m2 = vlib.run_lines(ref, ['sess r r %s - %s none' % (('-%x' % -c) if c < 0 else '%x' % c, V.frame(V.T_STATUS).hex()) for c in counts])
+    want = [bytes.fromhex(o.split()[1]) for o in m2]
+    bud.new_phase()
+    rep = dict(sessions=0, agree=0, behaviours=sorted(set(s_['beh'] for s_ in S)))
+    d = V.Daemon(b); d.start()
+    try:
+        idle_reply = vlib.run_lines(ref, ['sess r r 0 - %s none' % V.frame(V.T_STATUS).hex()])[0].split()[1]
+        first = wait_status_reply(d, bytes.fromhex(idle_reply))         # the connect-and-close probe of Daemon.start() has ended
+        ck.count(('countertie', 'fresh-daemon'), nontrivial=True)
+        if first != bytes.fromhex(idle_reply):
+            fs, _ = V.parse_frames(first or b'')
+            ck.fail('c18:counter:after:connect-close', 'after one connection that was closed without sending anything STATUS answers %r, the model answers active_clients=1' % (
+                        fs[0][1] if fs else first),
+                    dict(case='counter', behaviour='disconnect-before-header', name='connect-close', input_hex='', mode='abandon', expected_model=idle_reply,
+                         observed_impl=(first or b'').hex(), engine=tag, theorem='C18_session_ends (count restored)'))
+            S, want, counts = [], [], []          # every later STATUS would repeat the same drift
+        for s_, w, c in zip(S, want, counts):
+            if bud.exhausted() or not d.alive():
+                break
+            try:
+                r = V.raw_session(d.sock, s_['data'], mode=s_['mode'], read_limit=s_['read_limit'], timeout=bud.timeout())
+            except OSError as e:
+                r = dict(recv=b'', error=str(e))
+            if r.get('timeout'):
+                bud.anomaly('hung: sequential session %s' % s_['name'], hung=True)
+                ck.fail('c18:session:' + s_['name'], 'session %s (alone on the daemon) was not ended by the daemon within %g s' % (s_['name'], bud.timeout()),
+                        dict(case='session', behaviour=s_['beh'], name=s_['name'], input_hex=s_['data'].hex()[:4000], mode=s_['mode'], read_limit=s_['read_limit'],
+                             oracle=s_['oracle'][:200], hung=True, engine=tag, phase='sequential counter tie'))
+            got = wait_status_reply(d, w)
+            rep['sessions'] += 1
+            ck.count(('countertie', s_['name'], len(s_['data'])), nontrivial=True)
+            if got == w:
+                rep['agree'] += 1
+            else:
+                fs, _ = V.parse_frames(got or b'')
+                ck.fail('c18:counter:after:' + s_['name'],
+                        'after session %s (%s) STATUS answers %r, the model (count %d after the same sessions) answers %r' % (
+                            s_['name'], s_['beh'], fs[0][1] if fs else got, c, V.parse_frames(w)[0][0][1] if w else w),
+                        dict(case='counter', behaviour=s_['beh'], name=s_['name'], input_hex=s_['data'].hex()[:4000], mode=s_['mode'], read_limit=s_['read_limit'],
+                             sessions_before=[x['name'] for x in S[:S.index(s_)]][-8:], expected_model=w.hex(), observed_impl=(got or b'').hex(), engine=tag,
+                             theorem='C18_session_ends (count restored) / C17_active_zero_when_done'))
+                break            # every later STATUS would repeat the same drift
+    finally:
+        d.stop()
+    return rep
+
+
+def idle_timeout_case(ck, b, progs, bud, wd, tag='nano_vmd(plain) --idle-timeout 2'):
+    """A daemon that may idle out: after malformed and abandoned sessions a program that runs for several idle periods must still
+    be served completely (the idle check reads the session counter: a counter that drifted below the truth shuts the daemon
+    down under a running program)."""
+    # calibrate: the program must run for about three idle periods (6 s) on this machine, now
+    cal, diag = V.compile_nvm(b, V.gen_slow_program('IDLE', 8, 24), wd, 'idle_cal')
+    if cal is None:
+        raise RuntimeError('nano_virt refused the slow program: %s' % (diag,))
+    tc = time.time(); V.standalone(b, cal, timeout=120); tc = max(0.004, (time.time() - tc) / 8)
+    steps = max(20, min(2000, int(6.0 / tc)))
+    slow_src = V.gen_slow_program('IDLE', steps, 24)
+    nvm, diag = V.compile_nvm(b, slow_src, wd, 'idle_slow')
+    if nvm is None:
+        raise RuntimeError('nano_virt refused the slow program: %s' % (diag,))
+    box = {}
+    th = threading.Thread(target=lambda: box.__setitem__('st', V.standalone(b, nvm, timeout=120)))
+    th.start()
+    small = next(p for p in progs.items if p['kind'] == 'lines')
+    bad = [('version-9', V.frame(V.T_PING, version=9), 'full'), ('hdr-trunc-3', V.header(V.T_PING, 0)[:3], 'full'),
+           ('connect-close', b'', 'abandon'), ('len-over-max', V.header(V.T_LOAD_EXEC, V.MAX_PAYLOAD + 1), 'full'),
+           ('abandon-exec', V.frame(V.T_LOAD_EXEC, small['blob']), 'abandon')]
+    # two daemons side by side: (A) exactly one rejected session before the program (the connect-and-close probe of Daemon.start():
+    # a counter that is one too low reads 0 while one program runs), (B) five rejected / abandoned sessions before it
+    variants = [('one-rejected-session', []), ('five-rejected-sessions', bad)]
+    res = {}
+
+    def one(vname, sessions):
+        d = V.Daemon(b, args=('--foreground', '--idle-timeout', '2')); d.start()
+        t0 = time.time()
+        try:
+            for name, data, mode in sessions:
+                try:
+                    V.raw_session(d.sock, data, mode=mode, timeout=min(10.0, bud.timeout()))
+                except OSError:
+                    pass
+            st_reply = wait_status_reply(d, V.frame(V.T_STATUS_RSP, b'active_clients=1'), t=2.0)
+            obs = V.via_daemon(b, d, nvm, timeout=max(30.0, bud.timeout()))
+            t_run = time.time() - t0
+            alive_after = d.alive()
+            t1 = time.time()
+            while d.alive() and time.time() - t1 < 4:
+                time.sleep(0.05)
+            res[vname] = dict(st_reply=st_reply, obs=obs, t_run=t_run, alive_after=alive_after, rc=d.exit_status(), err=d.stderr(), sessions=sessions)
+        finally:
+            d.stop()
+
+    ths = [threading.Thread(target=one, args=v) for v in variants]
+    [t.start() for t in ths]; [t.join() for t in ths]
+    th.join()
+    st = box.get('st')
+    out = {}
+    for vname, _ in variants:
+        r = res.get(vname)
+        if r is None:
+            ck.fail('c18:idle-timeout:' + vname + ':no-result', 'idle-timeout variant %s produced no result (daemon did not start?)' % vname, dict(case='idle', engine=tag))
+            continue
+        obs, rc, sessions = r['obs'], r['rc'], r['sessions']
+        ck.count(('idle-timeout', vname), nontrivial=True)
+        fs, _ = V.parse_frames(r['st_reply'] or b'')
+        if r['st_reply'] != V.frame(V.T_STATUS_RSP, b'active_clients=1'):
+            ck.fail('c18:counter:idle-daemon:%s:status' % vname, 'idle-timeout daemon, %s: STATUS answers %r (expected active_clients=1)' % (vname, fs[0][1] if fs else r['st_reply']),
+                    dict(case='counter', name='idle-daemon', sessions_before=['connect-close (start probe)'] + [n for n, _, _ in sessions], observed_impl=(r['st_reply'] or b'').hex(), engine=tag))
+        if not r['alive_after'] and obs == st:
+            ck.note('idle-timeout case %s: the daemon had already idled out when the client finished; the run may have been served by a lazily launched daemon' % vname)
+        if obs != st:
+            an = V.client_anomaly(obs)
+            if an == 'hung':
+                bud.anomaly('hung: slow program under --idle-timeout', hung=True)
+            ck.fail('c18:idle-timeout:slow-program:' + vname,
+                    'a program running for %.1f s on a daemon started with --idle-timeout 2, after %d rejected/abandoned sessions, %s: exit %s vs %s, stdout %d vs %d bytes, stderr %r (daemon exit status %s)' % (
+                        r['t_run'], len(sessions) + 1, 'was never served' if an == 'hung' else 'was not served like standalone', obs[0], st[0], len(obs[1]), len(st[1]), obs[2][:100], rc),
+                    dict(case='idle', variant=vname, sessions_before=[dict(name=n, hex=dt.hex()[:64], mode=m_) for n, dt, m_ in sessions], program=slow_src,
+                         expected=dict(exit=st[0], stdout_len=len(st[1]), stderr=st[2].decode('utf-8', 'replace')[:200]),
+                         observed=dict(exit=obs[0], stdout_len=len(obs[1]), stderr=obs[2].decode('utf-8', 'replace')[:200], stdout_tail=obs[1][-80:].decode('utf-8', 'replace')),
+                         daemon_exit_status=rc, daemon_stderr=r['err'][-400:], engine=tag))
+        out[vname] = dict(program_steps=steps, program_seconds=round(r['t_run'], 1), status_before_program=(fs[0][1].decode('utf-8', 'replace') if fs else None),
+                          client_equal_standalone=(obs == st), daemon_alive_when_client_finished=r['alive_after'], daemon_exit_after_idle=rc)
+    return out
 
 
 def find_culprit(ck, b, S, env_extra=None):
@@ -444,13 +640,17 @@ def run(ck):
         for i, k in enumerate(kinds):
             progs.add(ck.rng, 'K%02d%s' % (i, 'abcdefghij'[i]), k)
         ck.extra['programs'] = [dict(name=p['name'], stdout_bytes=len(p['obs'][1]), exit=p['obs'][0], stderr=p['obs'][2].decode('utf-8', 'replace')[:80]) for p in progs.items]
-        ck.extra['live_plain'] = run_live(ck, b, ref, progs, 'nano_vmd(plain)')
+        bud = V.Budget(t_first=45.0, t_after=15.0, k=3, wall=200.0 if not ck.thorough else 1000.0)
+        ck.extra['live_plain'] = run_live(ck, b, ref, progs, 'nano_vmd(plain)', bud)
+        ck.extra['counter_tie'] = counter_tie(ck, b, ref, progs, bud)
+        ck.extra['idle_timeout_case'] = idle_timeout_case(ck, b, progs, bud, wd)
         if ck.thorough:
             ba = ck.build('asan')
-            ck.extra['live_asan'] = run_live(ck, ba, ref, progs, 'nano_vmd(asan)',
+            ck.extra['live_asan'] = run_live(ck, ba, ref, progs, 'nano_vmd(asan)', bud,
                                              env_extra=dict(ASAN_OPTIONS='detect_leaks=0:abort_on_error=1', UBSAN_OPTIONS='halt_on_error=1:print_stacktrace=1'))
             for _ in range(2):
-                ck.extra.setdefault('live_plain_more', []).append(run_live(ck, b, ref, progs, 'nano_vmd(plain)'))
+                if bud.left() > 0 or not ck.failures:
+                    ck.extra.setdefault('live_plain_more', []).append(run_live(ck, b, ref, progs, 'nano_vmd(plain)', bud))
         ck.extra['shutdown_case'] = shutdown_case(ck, b, ref)
 
         # (C) the witness of the refutation branch, on the real binary; also every open known finding
@@ -506,12 +706,15 @@ def run(ck):
                 h = hostile_run(ck, b, ref, progs, k['input']['hostile_kind'])
                 if not h['alive']:
                     ck.fail(k['key'], k['what'], dict(case='hostile', hostile_kind=k['input']['hostile_kind'], input_hex=h['blob'].hex()))
+        ck.extra['budget'] = bud.summary()
     finally:
         shutil.rmtree(wd, ignore_errors=True)
 
     ck.cov['rule'] = ('(A) header strings: 4 versions x 13 types x 14 boundary lengths, every header truncation, random strings; frames of random type/length; '
                       '(B) one live daemon, behaviour catalogue of the property in shuffled order on 8 client threads, 4 more threads running well-formed '
-                      'nano_vm --daemon clients throughout, every reply compared with the extracted client_thread; non-trivial = a live session or a non-empty probe line; '
+                      'nano_vm --daemon clients throughout, every reply compared with the extracted client_thread; (B2) one session at a time, STATUS after every session '
+                      'compared byte for byte with the model started from the model\'s own count; (B3) --idle-timeout 2 daemon: rejected/abandoned sessions, then a program '
+                      'running for several idle periods; non-trivial = a live session or a non-empty probe line; '
                       'distinct = distinct (behaviour, bytes)')
     ck.extra['exhaustive'] = False
     ck.trusted += ['translators tools/gen/dump_vmdconsts.c + gen_vmdconsts.py (constants through the compiler; golden frames through the real vmd_msg_send into a pipe)',
@@ -556,5 +759,33 @@ def replay(ck, d):
         print('impl reply :', r['recv'].hex()[:400], '(daemon alive=%s)' % alive); print('model      :', m[:400])
         same = alive and ('sent ' + (r['recv'].hex() or '-') + ' ') in m + ' '
         print('not reproduced' if same else 'REPRODUCED (or exec session: compare canonical forms by a full run)'); return 0 if same else 1
+    if kind == 'counter':
+        data = bytes.fromhex(d.get('input_hex') or '')
+        with V.Daemon(b) as dm:
+            before = wait_status_reply(dm, V.frame(V.T_STATUS_RSP, b'active_clients=1'))
+            V.raw_session(dm.sock, data, mode=d.get('mode', 'full'), read_limit=d.get('read_limit'), timeout=20)
+            after = wait_status_reply(dm, V.frame(V.T_STATUS_RSP, b'active_clients=1'))
+        print('STATUS before the session:', before); print('STATUS after the session :', after)
+        rep = after != V.frame(V.T_STATUS_RSP, b'active_clients=1')
+        print('REPRODUCED' if rep else 'not reproduced'); return 1 if rep else 0
+    if kind == 'idle':
+        wd = tempfile.mkdtemp(prefix='c18r_', dir=vlib.BUILD)
+        try:
+            nvm, diag = V.compile_nvm(b, d['program'], wd, 'idle_slow')
+            st = V.standalone(b, nvm, timeout=120)
+            dm = V.Daemon(b, args=('--foreground', '--idle-timeout', '2')); dm.start()
+            try:
+                for x in d.get('sessions_before', []):
+                    try:
+                        V.raw_session(dm.sock, bytes.fromhex(x['hex']), mode=x['mode'], timeout=10)
+                    except OSError:
+                        pass
+                obs = V.via_daemon(b, dm, nvm, timeout=60)
+            finally:
+                dm.stop()
+        finally:
+            shutil.rmtree(wd, ignore_errors=True)
+        print('standalone: exit %s, %d stdout bytes' % (st[0], len(st[1]))); print('via daemon: exit %s, %d stdout bytes, stderr %r' % (obs[0], len(obs[1]), obs[2][:120]))
+        print('REPRODUCED' if obs != st else 'not reproduced'); return 1 if obs != st else 0
     print('replay kind %r: run the full check' % kind)
     return 1
